@@ -292,6 +292,13 @@ example : (run exP exDir () { exPr with lsFuel := 4096 } (fun _ => false) false 
 example : (exRun stopAt9).wrote = true ∧ (exRun (fun _ => false)).wrote = false ∧
     (exRun stopAt9).final.isSome = true ∧ exPr.alwaysOverwrite = false := by decide +kernel
 
+/-- **`FuelOK` for the library's default `ZeroFPRParams`** (`L_0 = 0`, `L_min = 1e-5`, `L_max = 1e20`,
+    `min_linesearch_coefficient = 1/256`; model fuel 4096): `N = 84` (`2⁸⁴ > 10²⁵`), `M = 9`
+    (`2⁻⁹ < 1/256`), `84·11 + 9 = 933 < 4096`. -/
+example : FuelOK defaultParams 84 9 :=
+  ⟨by norm_num [defaultParams], by norm_num [defaultParams], by norm_num [defaultParams],
+   by norm_num [defaultParams], by norm_num, by decide⟩
+
 /-- the worst case the replay driver is run with (`checks/loop_zerofpr.py`: `L_min = 1e-5`,
     `L_max = 1e20`, `L_0 ≤ 0`, `min_linesearch_coefficient = 2⁻²⁰`, default fuel 4096) satisfies
     `FuelOK` with `N = 84` (`2⁸⁴ > 10²⁵`), `M = 21`: `84·23 + 21 = 1953 < 4096`. -/
